@@ -254,6 +254,17 @@ SPECS = {
         ("history_single_buffer", R + "Simulations/_phasefield.py", "            old_psiPlus_e_pg = self.__old_psiP_e_pg.get(groupElem.elemType)", "            old_psiPlus_e_pg = next(iter(self.__old_psiP_e_pg.values()), None)"),
         ("at1_source_not_clamped", R + "Models/_phasefield.py", "            absF = np.abs(f)\n            f = (f + absF) / 2", "            absF = np.abs(f)\n            f = (f + absF * (self.solver != self.SolverType.BoundConstrain)) / (2 - (self.solver == self.SolverType.BoundConstrain))"),
     ],
+    "C18": [
+        ("geometric_tangent_dropped_in_quadrature", R + "FEM/Operators/NonLinear.py", "        \"ep,epji,epjk,epkl->eil\", wJ_e_pg, B_t, d2Wde_quad, B_np1\n    ) + __geometric_tangent(wJ_e_pg, state_t, dWde_quad)", "        \"ep,epji,epjk,epkl->eil\", wJ_e_pg, B_t, d2Wde_quad, B_np1\n    ) + 0.5 * __geometric_tangent(wJ_e_pg, state_t, dWde_quad)"),
+        ("pk2_thickness_on_residual_only", R + "FEM/Operators/NonLinear.py", "    if dim == 2:\n        thickness = material.thickness\n        tangent_e *= thickness\n        residual_e *= thickness\n\n    return __reorder_dofs(dim, nPe, tangent_e, residual_e)\n\n\ndef GonzalezStressTensor", "    if dim == 2:\n        thickness = material.thickness\n        residual_e *= thickness\n\n    return __reorder_dofs(dim, nPe, tangent_e, residual_e)\n\n\ndef GonzalezStressTensor"),
+        ("follower_pressure_tangent_sign", R + "FEM/Operators/NonLinear.py", "    K_e[active] = -K_active\n    R_e[active] = F_active", "    K_e[active] = K_active\n    R_e[active] = F_active"),
+        ("contact_tangent_ignores_active_set", R + "FEM/Operators/NonLinear.py", "    H_e_pg = (gap_e_pg < 0).astype(float)  # active-set indicator", "    H_e_pg = (gap_e_pg < 1e9).astype(float)  # active-set indicator"),
+        ("kelvinvoigt_no_material_like_term", R + "FEM/Operators/NonLinear.py", "    Kgeo_e = thickness * (A_mat + A_geo)", "    Kgeo_e = thickness * (A_geo)"),
+        ("midpoint_coefM", SIMU, "            coefK = 0.5\n            coefC = 1 / dt\n            coefM = 2 / dt**2", "            coefK = 0.5\n            coefC = 1 / dt\n            coefM = 4 / dt**2"),
+        ("neohookean_d2W_term", R + "Models/HyperElastic/_laws.py", "        d2WdI3dI3 = 4 * I1 * K / (9 * I3 ** (7 / 3))\n\n        d2W = 4 * (dWdI1 * d2I1dC + dWdI3 * d2I3dC) + 4 * (\n            d2WdI1dI3 * TensorProd(dI1dC, dI3dC)\n            + d2WdI3dI1 * TensorProd(dI3dC, dI1dC)", "        d2WdI3dI3 = 4 * I1 * K / (9 * I3 ** (7 / 3))\n\n        d2W = 4 * (dWdI1 * d2I1dC + dWdI3 * d2I3dC) + 4 * (\n            d2WdI1dI3 * TensorProd(dI1dC, dI3dC)\n            + d2WdI3dI1 * TensorProd(dI1dC, dI3dC)"),
+        ("mooney_W_constant", R + "Models/HyperElastic/_laws.py", "        W = K * (I1 / I3 ** (1 / 3) - 3)", "        W = K * (I1 / I3 ** (1 / 3) - 3) + 1e-3 * K"),
+        ("state_F_transposed", R + "Models/HyperElastic/_state.py", "        F_e_pg = np.eye(3) + grad_e_pg\n", "        F_e_pg = np.eye(3) + grad_e_pg.T\n"),
+    ],
 }
 
 
